@@ -11,15 +11,24 @@ what the analyses compute is true of EVERY success of the pattern under the spec
 `Spec.m` — for every input, direction, start state, and not only of the highest-priority success —
 and hence of every result of `Spec.find`.
 
-Not modelled: first-character classes, fixed-distance sets and strings, literal-after-loop, landmark
-chains, Boyer-Moore tables, the case-insensitive prefix, multi-prefix search, the right-to-left
-prefix (not used by the engine), and the substitution of a leading positive lookahead's facts.
+The SET-VALUED facts (first-character class, fixed-distance sets/characters/strings, the multi-prefix
+and case-insensitive prefix lists, and the substitution of a leading positive lookahead's facts) are
+not mirrored but VALIDATED: `Model/SetFacts.lean` computes, on the same tree, over-approximations of the
+characters at and after a match start (`firstSet`, `setAt`, `prefixes`, `leadLook`), the theorems of
+the second half of this file prove them sound against `Spec.m`, and the closing theorems
+(`published_first_sound`, `published_set_sound`, `published_prefixes_sound`) say that a published set or
+string list is sound as soon as it INCLUDES (covers) one of the over-approximations.  That inclusion is
+what leg V of the harness checks, rune-exactly, with Go's `unicode` tables.
+
+Not modelled: literal-after-loop, landmark chains, Boyer-Moore tables, the right-to-left prefix (not
+used by the engine).
 -/
 import RegexVerif.Lemmas.Facts
+import RegexVerif.Lemmas.SetFacts
 import RegexVerif.Model.Scan
 
 namespace RegexVerif.Props.C04
-open RegexVerif RegexVerif.Spec RegexVerif.Facts
+open RegexVerif RegexVerif.Spec RegexVerif.Facts RegexVerif.SetFacts
 
 /-- **Positions only move in the direction of the match**: every success of every pattern ends at or
     after its start when matching left-to-right, at or before it when matching right-to-left
@@ -191,6 +200,199 @@ theorem minLenSound_spec (e : Env) (p : Pat) (rtl : Bool) :
   | none => simp [hst] at hat
   | some st => exact minLen_remaining e p rtl pos hpos st hst
 
+
+/-! ## set-valued facts: proved over-approximations and the validator statements
+
+`findFirstCharClass`, `findFixedDistanceSets` and `findPrefixes` are not mirrored.  `Model/SetFacts.lean`
+computes over-approximations structurally; a published set `E` (a predicate on runes: "the engine's
+`CharSet`/`Chars`/`Range` test accepts `r`") is sound if it includes one of them. -/
+
+/-- **The first-character set is sound** (both directions): if `firstSet p rtl = some S`, every success
+    of `p` is non-empty and the first character it consumes — `text[st.pos]` left-to-right,
+    `text[st.pos-1]` right-to-left — satisfies one of the leaf tests of `S`.  This is the fact
+    `findFirstCharClass` computes (`LeadingSet_LeftToRight` at distance 0, `LeadingSet_RightToLeft`,
+    `LeadingChar_RightToLeft`, the legacy `FcPrefix`): the scan loop skips every position whose next
+    character is outside the set. -/
+theorem firstSet_sound (e : Env) (p : Pat) (rtl : Bool) (S : List Pred) (h : firstSet p rtl = some S)
+    (st st' : St) (hm : st' ∈ m e p rtl st) :
+    st'.pos ≠ st.pos ∧ ∃ r, charAt e rtl st.pos = some r ∧ memPreds e S r = true := by
+  unfold firstSet at h
+  split at h
+  · rename_i s hf
+    simp at h; subst h
+    rcases first_ok e p rtl s false hf st st' hm with ⟨hn, _⟩ | hr
+    · simp at hn
+    · exact hr
+  · simp at h
+
+/-- **What the inclusion check of leg V gives** (first character): a published set `E` that includes
+    the over-approximation `firstSet p rtl` holds at every success.  (Monotonicity; it is the statement
+    that closes the argument: Lean proves `S` sound, the harness checks `S ⊆ E` rune-exactly.) -/
+theorem firstSet_superset_sound (e : Env) (p : Pat) (rtl : Bool) (S : List Pred) (h : firstSet p rtl = some S)
+    (E : Nat → Bool) (hsub : ∀ r, memPreds e S r = true → E r = true)
+    (st st' : St) (hm : st' ∈ m e p rtl st) : ∃ r, charAt e rtl st.pos = some r ∧ E r = true := by
+  obtain ⟨_, r, hr, hS⟩ := firstSet_sound e p rtl S h st st' hm
+  exact ⟨r, hr, hsub r hS⟩
+
+/-- **The fixed-offset set is sound** (left-to-right): if `setAt p k = some S`, the text has a character
+    `k` positions after the start of every success and it satisfies `S`.  This is the fact
+    `tryFindRawFixedSets` computes for each `FixedDistanceSet{Set, Distance}` (and for
+    `FixedDistanceChar`/`FixedDistanceString`, whose sets are singletons). -/
+theorem setAt_sound (e : Env) (p : Pat) (k : Nat) (S : List Pred) (h : setAt p k = some S)
+    (st st' : St) (hm : st' ∈ m e p false st) :
+    ∃ r, e.text[st.pos + k]? = some r ∧ memPreds e S r = true :=
+  setAt_ok e p k S h st st' hm
+
+/-- **Facts of a leading positive lookahead are facts of the pattern**: if `leadLook p` finds the
+    lookahead `(?=b)`, any statement `F` about a text position that holds wherever `b` matches holds at
+    the start of every success of `p`.  This is why `newFindOptimizations` may publish the
+    `FindOptimizations` of the lookahead's body for the whole pattern. -/
+theorem leadLook_transfer (e : Env) (p b : Pat) (k : Bool) (h : leadLook p = (some b, k)) (F : Nat → Prop)
+    (hb : ∀ st0 st1 : St, st1 ∈ m e b false st0 → F st0.pos)
+    (st st' : St) (hm : st' ∈ m e p false st) : F st.pos := by
+  obtain ⟨st0, h0, hne⟩ := (leadLook_ok e p st st' hm).1 b k h
+  cases hb0 : m e b false st0 with
+  | nil => exact absurd hb0 hne
+  | cons y ys => rw [← h0]; exact hb st0 y (by rw [hb0]; simp)
+
+/-- **Every candidate set is sound**: each member of `setCandidates p k` — the fixed-offset set of `p`,
+    at offset 0 its first-character set, and the same two for the body of a leading positive
+    lookahead — contains the character `k` positions after the start of every left-to-right success.
+    (With a lookahead candidate the success itself may be empty; the character exists all the same.) -/
+theorem setCandidates_sound (e : Env) (p : Pat) (k : Nat) (S : List Pred) (hS : S ∈ setCandidates p k)
+    (st st' : St) (hm : st' ∈ m e p false st) :
+    ∃ r, e.text[st.pos + k]? = some r ∧ memPreds e S r = true := by
+  have own : ∀ (q : Pat), S ∈ ownCandidates q k →
+      ∀ (s s' : St), s' ∈ m e q false s → ∃ r, e.text[s.pos + k]? = some r ∧ memPreds e S r = true := by
+    intro q hq s s' hs
+    unfold ownCandidates at hq
+    rw [List.mem_append] at hq
+    rcases hq with hq | hq
+    · exact setAt_sound e q k S (by simpa [Option.mem_toList] using hq) s s' hs
+    · split at hq
+      · rename_i hk
+        subst hk
+        obtain ⟨_, r, hr, hmem⟩ := firstSet_sound e q false S (by simpa [Option.mem_toList] using hq) s s' hs
+        exact ⟨r, by simpa [charAt] using hr, hmem⟩
+      · simp at hq
+  unfold setCandidates at hS
+  split at hS
+  · rename_i b hb
+    rw [List.mem_append] at hS
+    rcases hS with hS | hS
+    · exact own p hS st st' hm
+    · exact leadLook_transfer e p b (leadLook p).2 (by rw [← hb]) (fun i => ∃ r, e.text[i + k]? = some r ∧ memPreds e S r = true)
+        (fun s0 s1 h1 => own b hS s0 s1 h1) st st' hm
+  · exact own p hS st st' hm
+
+/-- **The leading strings are sound** (left-to-right): the text at the start of every success,
+    normalised rune by rune with `norm`, begins with one of the strings of
+    `prefixes norm maxLen maxCount p` (for any budget; `norm = id`: the text itself, the
+    case-sensitive reading). -/
+theorem prefixes_sound (e : Env) (norm : Nat → Nat) (maxLen maxCount : Nat) (p : Pat) (st st' : St)
+    (hm : st' ∈ m e p false st) :
+    ∃ l ∈ (prefixes norm maxLen maxCount p).1, l <+: (e.text.drop st.pos).map norm := by
+  obtain ⟨l, hl, hp, _⟩ := prefixes_ok e norm maxLen p maxCount st st' hm
+  exact ⟨l, hl, by simpa [ntext, List.map_drop] using hp⟩
+
+/-- **The prefix validator is sound**: let `R x t` be the comparison the engine's search applies to a
+    published rune `x` and a text rune `t` (equality for `LeadingStrings_LeftToRight`,
+    `t == x || toLower t == x` for the ordinal-ignore-case modes) and `norm` a normalisation that `R`
+    accepts (`R (norm t) t`: identity, resp. lower-casing).  If every string of a candidate list starts
+    with a published string (`checkPrefixes`), then at the start of every success some published string
+    matches the text under `R`.  So a `LeadingPrefixes` list that passes the check never makes the
+    search skip a match; this is `findPrefixes`' obligation. -/
+theorem checkPrefixes_sound (e : Env) (norm : Nat → Nat) (maxLen maxCount : Nat) (p : Pat)
+    (R : Nat → Nat → Bool) (hR : ∀ t, R (norm t) t = true)
+    (E : List (List Nat)) (L : List (List Nat)) (hL : L ∈ prefixCandidates norm maxLen maxCount p)
+    (hc : checkPrefixes E L = true)
+    (st st' : St) (hm : st' ∈ m e p false st) : ∃ x ∈ E, rPrefix R x (e.text.drop st.pos) = true := by
+  have own : ∀ (q : Pat), L = (prefixes norm maxLen maxCount q).1 → ∀ (s s' : St), s' ∈ m e q false s →
+      ∃ x ∈ E, rPrefix R x (e.text.drop s.pos) = true := by
+    intro q hq s s' hs
+    obtain ⟨l, hl, hp⟩ := prefixes_sound e norm maxLen maxCount q s s' hs
+    rw [← hq] at hl
+    unfold checkPrefixes at hc
+    rw [List.all_eq_true] at hc
+    have := hc l hl
+    rw [List.any_eq_true] at this
+    obtain ⟨x, hx, hr⟩ := this
+    exact ⟨x, hx, rPrefix_norm R norm hR x _ (rPrefix_mono _ x l _ hr hp)⟩
+  unfold prefixCandidates at hL
+  split at hL
+  · rename_i b hb
+    simp at hL
+    rcases hL with hL | hL
+    · exact own p hL st st' hm
+    · exact leadLook_transfer e p b (leadLook p).2 (by rw [← hb]) (fun i => ∃ x ∈ E, rPrefix R x (e.text.drop i) = true)
+        (fun s0 s1 h1 => own b hL s0 s1 h1) st st' hm
+  · simp at hL
+    exact own p hL st st' hm
+
+/-! ### the validator statements at the level of a find call -/
+
+/-- **A published first-character set that includes `firstSet p rtl` holds at every find result**: the
+    match is non-empty and the character at its scan-direction start — `text[idx]` left-to-right,
+    `text[idx+len-1]` right-to-left — is accepted by the published test `E`. -/
+theorem published_first_sound (e : Env) (p : Pat) (rtl : Bool) (S : List Pred) (h : firstSet p rtl = some S)
+    (E : Nat → Bool) (hsub : ∀ r, memPreds e S r = true → E r = true)
+    (start : Nat) (st : St) (hf : find e p rtl start = some st) :
+    ∃ idx len, lastCap st.caps 0 = some (idx, len) ∧ 0 < len ∧
+      ∃ r, e.text[if rtl then idx + len - 1 else idx]? = some r ∧ E r = true := by
+  obtain ⟨i, _, hat⟩ := find_attempt e p rtl start st hf
+  obtain ⟨y, hy, _, hcap⟩ := attempt_success e p rtl i st hat
+  have h2 := m_fwd e p rtl _ y hy
+  obtain ⟨hne, r, hr, hS⟩ := firstSet_sound e p rtl S h _ y hy
+  refine ⟨_, _, hcap, ?_, r, ?_, hsub r hS⟩
+  · cases rtl <;> simp [Fwd] at h2 hne ⊢ <;> omega
+  · cases rtl
+    · simp [Fwd] at h2
+      simpa [charAt, Nat.min_eq_left h2] using hr
+    · simp [Fwd] at h2
+      simp only [charAt, if_true] at hr
+      split at hr
+      · simp at hr
+      · rename_i hi0
+        have e1 : min i y.pos + (max i y.pos - min i y.pos) - 1 = i - 1 := by omega
+        simpa [e1] using hr
+
+/-- **A published fixed-distance set that includes the intersection of the candidates holds at every
+    find result** (left-to-right): if at least one over-approximation exists for offset `k` and the
+    published test `E` accepts every rune that ALL candidates accept, then the text has a character `k`
+    positions after the match index and `E` accepts it.  `E` is what the runner evaluates for a
+    `FixedDistanceSet` at `Distance = k` (`Chars`/`Range` with `Negated`, else `Set.CharIn`), the single
+    character of `FixedDistanceChar`, character `i` of a `FixedDistanceString` or of a `LeadingPrefix`
+    at `Distance + i`, or `FcPrefix` at 0.  (Including ONE candidate is the special case.) -/
+theorem published_set_sound (e : Env) (p : Pat) (k : Nat) (hne : setCandidates p k ≠ [])
+    (E : Nat → Bool) (hsub : ∀ r, (∀ S ∈ setCandidates p k, memPreds e S r = true) → E r = true)
+    (start : Nat) (st : St) (hf : find e p false start = some st) :
+    ∃ idx len, lastCap st.caps 0 = some (idx, len) ∧ ∃ r, e.text[idx + k]? = some r ∧ E r = true := by
+  obtain ⟨i, _, hat⟩ := find_attempt e p false start st hf
+  obtain ⟨y, hy, _, hcap⟩ := attempt_success e p false i st hat
+  have h2 : i ≤ y.pos := by simpa [Fwd] using m_fwd e p false _ y hy
+  obtain ⟨S0, hS0⟩ := List.exists_mem_of_ne_nil _ hne
+  obtain ⟨r, hr, _⟩ := setCandidates_sound e p k S0 hS0 _ y hy
+  refine ⟨_, _, hcap, r, by simpa [Nat.min_eq_left h2] using hr, hsub r ?_⟩
+  intro S hS
+  obtain ⟨r', hr', hmem⟩ := setCandidates_sound e p k S hS _ y hy
+  rw [hr] at hr'
+  simp at hr'; subst hr'
+  exact hmem
+
+/-- **A published prefix list that passes the validator holds at every find result** (left-to-right):
+    some published string matches the text at the match index under the search's comparison `R`. -/
+theorem published_prefixes_sound (e : Env) (norm : Nat → Nat) (maxLen maxCount : Nat) (p : Pat)
+    (R : Nat → Nat → Bool) (hR : ∀ t, R (norm t) t = true)
+    (E : List (List Nat)) (L : List (List Nat)) (hL : L ∈ prefixCandidates norm maxLen maxCount p)
+    (hc : checkPrefixes E L = true)
+    (start : Nat) (st : St) (hf : find e p false start = some st) :
+    ∃ idx len, lastCap st.caps 0 = some (idx, len) ∧ ∃ x ∈ E, rPrefix R x (e.text.drop idx) = true := by
+  obtain ⟨i, _, hat⟩ := find_attempt e p false start st hf
+  obtain ⟨y, hy, _, hcap⟩ := attempt_success e p false i st hat
+  have h2 : i ≤ y.pos := by simpa [Fwd] using m_fwd e p false _ y hy
+  obtain ⟨x, hx, hr⟩ := checkPrefixes_sound e norm maxLen maxCount p R hR E L hL hc _ y hy
+  exact ⟨_, _, hcap, x, hx, by simpa [Nat.min_eq_left h2] using hr⟩
+
 /-! ### non-vacuity: concrete instances -/
 
 /-- `^ab{1,3}(?:c|cd)$` (multiline) on "x\nabbc": Concatenate(Bol, One a, Oneloop b{1,3},
@@ -234,6 +436,102 @@ example : leadingPrefix utf8enc (.quant false 2 (some 2) (.atomic (.seq (.chr (.
 example : leadingPrefix utf8enc (.seq (.chr (.one 97 false))
     (.alt (.seq (.chr (.one 233 false)) (.chr (.one 120 false))) (.seq (.chr (.one 232 false)) (.chr (.one 121 false)))))
     = ([97, 0xC3], false) := by decide
+
+
+/-! ### non-vacuity of the set-valued theorems -/
+
+-- `^ab{1,3}(?:c|cd)$`: first character `a`; `b` at offset 1; `c` at offset... not fixed (b{1,3})
+example : firstSet demoPat false = some [.one 97 false] := by decide
+example : setAt demoPat 1 = some [.one 98 false] ∧ setAt demoPat 2 = none := by decide
+example : (prefixes id 8 16 demoPat).1 = [[97, 98]] := by decide
+example : demoEnd.pos ≠ demoStart.pos ∧ ∃ r, charAt demoEnv false 2 = some r ∧ memPreds demoEnv [.one 97 false] r = true :=
+  firstSet_sound demoEnv demoPat false _ (by decide) demoStart demoEnd demo_success
+example : ∃ r, demoEnv.text[2 + 1]? = some r ∧ memPreds demoEnv [.one 98 false] r = true :=
+  setAt_sound demoEnv demoPat 1 _ (by decide) demoStart demoEnd demo_success
+example : ∃ l ∈ [[97, 98]], l <+: (demoEnv.text.drop 2).map id :=
+  prefixes_sound demoEnv id 8 16 demoPat demoStart demoEnd demo_success
+example : ∃ r, charAt demoEnv false 2 = some r ∧ (fun r => decide (97 ≤ r ∧ r ≤ 122)) r = true :=
+  firstSet_superset_sound demoEnv demoPat false [.one 97 false] (by decide) (fun r => decide (97 ≤ r ∧ r ≤ 122))
+    (by intro r h; simp [memPreds, Pred.test] at h; subst h; decide) demoStart demoEnd demo_success
+example : ∃ idx len, lastCap ({ pos := 6, caps := [(0, 2, 4)] } : St).caps 0 = some (idx, len) ∧ 0 < len ∧
+    ∃ r, demoEnv.text[if false then idx + len - 1 else idx]? = some r ∧ (fun r => r == 97) r = true :=
+  published_first_sound demoEnv demoPat false [.one 97 false] (by decide) (fun r => r == 97)
+    (by intro r h; simp [memPreds, Pred.test] at h; subst h; decide) 0 _ (by decide)
+
+-- right-to-left `\bab$`: the LAST character in pattern order is consumed first
+example : firstSet demoRtl true = some [.one 98 false] := by decide
+example : ∃ idx len, lastCap ({ pos := 2, caps := [(0, 2, 2)] } : St).caps 0 = some (idx, len) ∧ 0 < len ∧
+    ∃ r, demoRtlEnv.text[if true then idx + len - 1 else idx]? = some r ∧ (fun r => r == 98) r = true :=
+  published_first_sound demoRtlEnv demoRtl true [.one 98 false] (by decide) (fun r => r == 98)
+    (by intro r h; simp [memPreds, Pred.test] at h; subst h; decide) 5 _ (by decide)
+
+/-- `(?=[a-b]x)(?:a[x-y]|b[^\n])z*` on "zaxz": a leading positive lookahead (its facts are candidates),
+    an alternation of equal-width branches (union at each offset), a nullable tail -/
+def demoSets : Pat :=
+  .seq (.look false false (.seq (.chr (.set (.base false [(97, 98)] []) false)) (.chr (.one 120 false))))
+    (.seq (.alt (.seq (.chr (.one 97 false)) (.chr (.set (.base false [(120, 121)] []) false)))
+                (.seq (.chr (.one 98 false)) (.chr (.notone 10 false))))
+      (.quant false 0 none (.chr (.one 122 false))))
+def demoSetsEnv : Env := { text := [122, 97, 120, 122], textstart := 0, named := [], word := [], fold := [] }
+
+theorem demoSets_success : ({ pos := 4, caps := [] } : St) ∈ m demoSetsEnv demoSets false { pos := 1, caps := [] } := by decide
+
+example : firstSet demoSets false = some [.one 97 false, .one 98 false] := by decide
+example : setAt demoSets 1 = some [.set (.base false [(120, 121)] []) false, .notone 10 false] := by decide
+example : (leadLook demoSets).1 = some (.seq (.chr (.set (.base false [(97, 98)] []) false)) (.chr (.one 120 false))) := by decide
+example : setCandidates demoSets 1 =
+    [[.set (.base false [(120, 121)] []) false, .notone 10 false], [.one 120 false]] := by decide
+example : setCandidates demoSets 0 =
+    [[.one 97 false, .one 98 false], [.one 97 false, .one 98 false],
+     [.set (.base false [(97, 98)] []) false], [.set (.base false [(97, 98)] []) false]] := by decide
+example : prefixCandidates id 8 16 demoSets = [[[97, 120], [97, 121], [98]], [[97, 120], [98, 120]]] := by decide
+example : ∃ r, demoSetsEnv.text[1 + 1]? = some r ∧ memPreds demoSetsEnv [.one 120 false] r = true :=
+  setCandidates_sound demoSetsEnv demoSets 1 _ (by decide) _ _ demoSets_success
+example : ∃ r, demoSetsEnv.text[1]? = some r ∧ memPreds demoSetsEnv [.one 97 false, .one 98 false] r = true :=
+  leadLook_transfer demoSetsEnv demoSets
+    (.seq (.chr (.set (.base false [(97, 98)] []) false)) (.chr (.one 120 false))) false (by decide)
+    (fun i => ∃ r, demoSetsEnv.text[i]? = some r ∧ memPreds demoSetsEnv [.one 97 false, .one 98 false] r = true)
+    (fun s0 s1 h1 => by
+      obtain ⟨_, r, hr, hm⟩ := firstSet_sound demoSetsEnv _ false [.set (.base false [(97, 98)] []) false] (by decide) s0 s1 h1
+      refine ⟨r, by simpa [charAt] using hr, ?_⟩
+      simp [memPreds, Pred.test, Cls.mem, inRanges, inNames] at hm ⊢
+      omega)
+    _ _ demoSets_success
+-- a published case-sensitive list {"ax","bx"} (the lookahead's) covers the lookahead's candidate list
+example : checkPrefixes [[97, 120], [98, 120]] [[97, 120], [98, 120]] = true := by decide
+example : ∃ x ∈ [[97, 120], [98, 120]], rPrefix (fun x t => x == t) x (demoSetsEnv.text.drop 1) = true :=
+  checkPrefixes_sound demoSetsEnv id 8 16 demoSets (fun x t => x == t) (by intro t; simp) _ [[97, 120], [98, 120]]
+    (by decide) (by decide) _ _ demoSets_success
+example : find demoSetsEnv demoSets false 0 = some { pos := 4, caps := [(0, 1, 3)] } := by decide
+example : ∃ idx len, lastCap ({ pos := 4, caps := [(0, 1, 3)] } : St).caps 0 = some (idx, len) ∧
+    ∃ r, demoSetsEnv.text[idx + 1]? = some r ∧ (fun r => decide (r ≠ 10)) r = true :=
+  published_set_sound demoSetsEnv demoSets 1 (by decide) (fun r => decide (r ≠ 10))
+    (by
+      intro r h
+      have := h [.one 120 false] (by decide)
+      simp [memPreds, Pred.test] at this
+      subst this; decide) 0 _ (by decide)
+/-- an upper-case text "zAXz" and the normalisation "ASCII lower-casing": the ordinal-ignore-case reading -/
+def demoLower (r : Nat) : Nat := if 65 ≤ r ∧ r ≤ 90 then r + 32 else r
+def demoCi : Pat := .seq (.chr (.set (.base false [(65, 65), (97, 97)] []) false)) (.chr (.set (.base false [(88, 88), (120, 120)] []) false))
+def demoCiEnv : Env := { text := [122, 65, 88, 122], textstart := 0, named := [], word := [], fold := [] }
+example : prefixCandidates demoLower 8 16 demoCi = [[[97, 120]]] := by decide
+example : prefixCandidates id 8 16 demoCi = [[[65, 88], [65, 120], [97, 88], [97, 120]]] := by decide
+example : find demoCiEnv demoCi false 0 = some { pos := 3, caps := [(0, 1, 2)] } := by decide
+example : ∃ idx len, lastCap ({ pos := 3, caps := [(0, 1, 2)] } : St).caps 0 = some (idx, len) ∧
+    ∃ x ∈ [[97, 120]], rPrefix (fun x t => t == x || demoLower t == x) x (demoCiEnv.text.drop idx) = true :=
+  published_prefixes_sound demoCiEnv demoLower 8 16 demoCi (fun x t => t == x || demoLower t == x)
+    (by intro t; simp) [[97, 120]] [[97, 120]] (by decide) (by decide) 0 _ (by decide)
+
+/-! ### the first-character defect D13 (fixed by 0ead94b + 0185758), documented
+
+For `(?:xx|.a)` the analysis merged `[^\n]` into the already collected `{x}` by NEGATING the accumulator
+and published `[^\nx]`-like sets that exclude `x`; the match "xx" was skipped.  The over-approximation
+is `{x} ∪ [^\n]`; a published set must include it, and no set without `x` does. -/
+def d13Pat : Pat := .alt (.seq (.chr (.one 120 false)) (.chr (.one 120 false))) (.seq (.chr (.notone 10 false)) (.chr (.one 97 false)))
+example : firstSet d13Pat false = some [.one 120 false, .notone 10 false] := by decide
+example : ¬ ∀ r, memPreds demoEnv [.one 120 false, .notone 10 false] r = true → (fun r => decide (r ≠ 10 ∧ r ≠ 120)) r = true := by
+  intro h; have := h 120 (by decide); simp at this
 
 /-! ### the defect fixed by d917f9b, documented
 
